@@ -581,6 +581,7 @@ func (r *Reconciler) reconcileApply(ctx context.Context, transaction *configapi.
 	switch transaction.Status.Phases.Apply.State {
 	case configapi.TransactionApplyPhase_APPLYING:
 		allApplied := true
+		var failedProposal *configapi.Proposal
 		for _, proposalID := range transaction.Status.Proposals {
 			proposal, err := r.proposals.Get(ctx, proposalID)
 			if err != nil {
@@ -608,17 +609,26 @@ func (r *Reconciler) reconcileApply(ctx context.Context, transaction *configapi.
 			case configapi.ProposalApplyPhase_APPLYING:
 				allApplied = false
 			case configapi.ProposalApplyPhase_FAILED:
-				log.Warnf("Transaction %d apply failed", transaction.Index)
-				transaction.Status.State = configapi.TransactionStatus_FAILED
-				transaction.Status.Failure = proposal.Status.Phases.Apply.Failure
-				transaction.Status.Phases.Apply.State = configapi.TransactionApplyPhase_FAILED
-				transaction.Status.Phases.Apply.Failure = proposal.Status.Phases.Apply.Failure
-				transaction.Status.Phases.Apply.End = getCurrentTimestamp()
-				if err := r.updateTransactionStatus(ctx, transaction); err != nil {
-					return controller.Result{}, err
+				// The transaction fails, but only once the apply phase of every one of its proposals has been
+				// started: a proposal left without one never moves the applied index of its target, and every
+				// later change to that target would wait for it for ever.
+				if failedProposal == nil {
+					failedProposal = proposal
 				}
-				return controller.Result{}, nil
 			}
+		}
+
+		if failedProposal != nil {
+			log.Warnf("Transaction %d apply failed", transaction.Index)
+			transaction.Status.State = configapi.TransactionStatus_FAILED
+			transaction.Status.Failure = failedProposal.Status.Phases.Apply.Failure
+			transaction.Status.Phases.Apply.State = configapi.TransactionApplyPhase_FAILED
+			transaction.Status.Phases.Apply.Failure = failedProposal.Status.Phases.Apply.Failure
+			transaction.Status.Phases.Apply.End = getCurrentTimestamp()
+			if err := r.updateTransactionStatus(ctx, transaction); err != nil {
+				return controller.Result{}, err
+			}
+			return controller.Result{}, nil
 		}
 
 		if allApplied {
